@@ -277,14 +277,15 @@ def peer_cases(draw):
                                     st.sampled_from([0, 0, 0, 0.002, 0.01, 0.04])), min_size=1, max_size=10))
     reqs = draw(st.lists(st.one_of(st.sampled_from([1, 2, 24, 4096, 65536, 1048576]), st.integers(1, 100000)), min_size=1, max_size=6))
     return {"api": draw(st.sampled_from(["sync", "async"])), "frags": frags, "reqs": reqs,
-            "connect_timeout": draw(st.sampled_from([None, 1.0, 5.0])), "read_timeout": draw(st.sampled_from([2.0, 5.0])),
+            "connect_timeout": draw(st.sampled_from([None, 1.0, 5.0])), "read_timeout": draw(st.sampled_from([2.0, 5.0, None])),
             "idle_timeout": draw(st.sampled_from([0.05, 0.1, 0.2, 0.3])), "tail": draw(st.binary(min_size=1, max_size=2000)),
             "rcvbuf": draw(st.sampled_from([None, None, 4096, 65536])), "reconnect": draw(st.booleans()),
             "big_write": draw(st.sampled_from([0, 0, 100000, 1048576])), "write_timeout": draw(st.sampled_from([None, 2.0, 5.0])),
             "peer_rcvbuf": draw(st.sampled_from([None, 4096])), "sndbuf": draw(st.sampled_from([None, 4096])),
             "poll": draw(st.booleans()),                 # read the tail with timeout 0 (a poll) once it has certainly arrived
             "unread_inbound": draw(st.booleans()),       # the peer sends a few bytes that stay unread while the client writes
-            "peer_reset": draw(st.sampled_from([False, False, True]))}      # the peer finally aborts the connection (RST); close()/connect() must still work
+            "peer_reset": draw(st.sampled_from([False, False, True])),      # the peer finally aborts the connection (RST); close()/connect() must still work
+            "peer_stall": draw(st.sampled_from([0, 0, 0.8]))}               # the peer stops reading for this long in the middle of the big write (longer than a 0.3 s write timeout)
 
 
 def _drive_sync(case, port, peer, rec):
@@ -342,7 +343,13 @@ def _drive_sync(case, port, peer, rec):
         while len(view):
             if time.time() > t_end:
                 raise Inconclusive("watchdog while writing")
-            n = tr.bulk_write(bytes(view), case.get("write_timeout"))
+            try:
+                n = tr.bulk_write(bytes(view), 0.3 if case.get("peer_stall") else case.get("write_timeout"))
+            except L.exceptions.TcpTimeoutException:
+                if not case.get("peer_stall"):
+                    raise
+                rec["write_timed_out"] = True        # legitimate: the peer stalled for longer than the write timeout
+                break
             calls += 1
             if not isinstance(n, int) or n <= 0 or n > len(view):
                 rec["bad_write_count"] = (n, len(view))
@@ -373,7 +380,7 @@ def _drive_sync(case, port, peer, rec):
     rec["closed_twice"] = True
     if case["reconnect"] or case.get("peer_reset"):
         tr.connect(case["connect_timeout"])
-        b = tr.bulk_read(5, case["read_timeout"])
+        b = tr.bulk_read(5, 10.0)          # generous: the peer may still be draining the previous connection's backlog before it accepts this one
         rec["reconnect"] = bytes(b)
         tr.close()
 
@@ -429,7 +436,13 @@ async def _drive_async(case, port, peer, rec):
         while len(view):
             if time.time() > t_end:
                 raise Inconclusive("watchdog while writing")
-            n = await tr.bulk_write(bytes(view), case.get("write_timeout"))
+            try:
+                n = await tr.bulk_write(bytes(view), 0.3 if case.get("peer_stall") else case.get("write_timeout"))
+            except L.exceptions.TcpTimeoutException:
+                if not case.get("peer_stall"):
+                    raise
+                rec["write_timed_out"] = True
+                break
             calls += 1
             if not isinstance(n, int) or n <= 0 or n > len(view):
                 rec["bad_write_count"] = (n, len(view))
@@ -458,7 +471,7 @@ async def _drive_async(case, port, peer, rec):
     rec["closed_twice"] = True
     if case["reconnect"] or case.get("peer_reset"):
         await tr.connect(case["connect_timeout"])
-        b = await tr.bulk_read(5, case["read_timeout"])
+        b = await tr.bulk_read(5, 10.0)
         rec["reconnect"] = bytes(b)
         await tr.close()
 
@@ -473,7 +486,12 @@ def run_transport(case, api):
         script.insert(len(script) - 1, ("wait", "inbound"))
         script.insert(len(script) - 1, ("send", b"unread-by-client", 0))
     if case.get("big_write"):
-        script.append(("recv_slow", case["big_write"], 4096, 0.004))
+        if case.get("peer_stall"):
+            script.append(("recv_slow", min(20000, case["big_write"]), 4096, 0.004))
+            script.append(("send", b"", case["peer_stall"]))           # (a pause: sleep, then send nothing)
+            script.append(("recv_slow", case["big_write"] - min(20000, case["big_write"]), 4096, 0.004))
+        else:
+            script.append(("recv_slow", case["big_write"], 4096, 0.004))
     if case.get("peer_reset"):
         script.append(("wait", "reset"))
         script.append(("reset",))
@@ -531,7 +549,12 @@ def judge_transport(case, rec):
         if rec.get("bad_write_count"):
             return Violation("write-count-out-of-range", "bulk_write returned %r for %d offered bytes" % rec["bad_write_count"])
         want_w = b"client-hello" + big_payload(case["big_write"])
-        if rec["peer_received"] != want_w:
+        if rec.get("write_timed_out"):
+            # the write gave up (legitimately); whatever did reach the peer must be a clean prefix: nothing duplicated, nothing out of place
+            if rec["peer_received"] != want_w[:len(rec["peer_received"])]:
+                return Violation("bytes-duplicated-or-reordered-after-write-timeout", "after a write timeout the peer holds %d bytes that are not a prefix of what was written (first difference at %s)"
+                                 % (len(rec["peer_received"]), _first_diff(want_w, rec["peer_received"])))
+        elif rec["peer_received"] != want_w:
             return Violation("written-bytes-not-delivered", "every bulk_write call returned normally (counts summing to %d bytes) and close() returned, but the peer received %d bytes; first difference at %s"
                              % (len(want_w), len(rec["peer_received"]), _first_diff(want_w, rec["peer_received"])))
     if (case["reconnect"] or case.get("peer_reset")) and rec.get("reconnect") != b"again":
@@ -562,6 +585,8 @@ def check_pair(case):
         info["inconclusive"] = True
         return None, info
     for key in ("stream", "tail", "reconnect", "peer_received"):
+        if key == "peer_received" and (rs.get("write_timed_out") or ra.get("write_timed_out")):
+            continue      # the peer stalled for longer than the write timeout: how much had been accepted by then legitimately differs (each side is judged by judge_transport)
         if rs.get(key) != ra.get(key):
             return Violation("tcp-transports-differ:" + key, "sync %r.. / async %r.." % (str(rs.get(key))[:60], str(ra.get(key))[:60])), info
     if (rs.get("exc") is None) != (ra.get("exc") is None) or (rs.get("exc") is not None and type(rs["exc"]) is not type(ra["exc"])):
@@ -572,6 +597,9 @@ def check_pair(case):
         for n, m in r["reads"]:
             if m > n:
                 return Violation("read-exceeds-request", "%s bulk_read(%d) returned %d" % (r["api"], n, m)), info
+        v = judge_transport(case, r)
+        if v is not None and v != "inconclusive":
+            return Violation("tcp-transport-contract:" + v.rule, "%s: %s" % (r["api"], v.detail)), info
     return None, info
 
 
